@@ -924,3 +924,207 @@ Proof. exact Roundtrip.AuditFollowup.udp_from_bytes_dec_enc. Qed.
 Print Assumptions C08_Udp_from_bytes.
 End AUDIT1.
 (* ==== end audit follow-up ==== *)
+
+(* ==== round3 c08id begin ==== *)
+(* Audit round 3, top-12 item 12 (notes/AUDIT_round3.md, section C08):
+   (a) EXACT idempotence for IpHeaders (Roundtrip/IpHeadersIdem.v), (b) a POSITIONAL mask for
+   Ipv6Extensions replacing the relation hdr_eq + the serialiser agreement (Roundtrip/Exts6Mask.v), carried
+   over to IpHeaders, (c) explicit idempotence for ArpEthIpv4Packet (Roundtrip/ArpIdem.v).
+   Compositions of the existing models only; no new model of Rust code. *)
+From EP Require Roundtrip.IpHeadersIdem Roundtrip.ArpIdem Roundtrip.Exts6Mask.
+Module ROUND3.
+Import Checksum.Model Roundtrip.Common Roundtrip.Ipv4 Roundtrip.Ipv6 Roundtrip.Exts4 Roundtrip.Exts4Proofs Roundtrip.Arp.
+Import Roundtrip.IpHeaders Roundtrip.IpHeadersProofs Roundtrip.IpHeadersIdem.
+
+(* ---- (a) IpHeaders: the written value IS the decoded value <-> the wire checksum is right ---------- *)
+(* For every accepted byte string: `iph_written en h` (what C08_IpHeaders_enc_dec / _dec_enc / _read_any
+   return) is EQUAL (Leibniz, not only PartialEq) to the decoded h exactly when the header checksum field is
+   the one calc_header_checksum() computes; that field is bytes 10-11 of the input (IPv4; IPv6 has none and
+   the equality always holds). *)
+Theorem C08_IpHeaders_written_exact : forall en bs h p, bytes_ok bs -> iph_from_slice bs = Ok (h, p) ->
+  (iph_checksum_ok en h = true <-> iph_written en h = h)
+  /\ (forall hd e, h = IpV4 hd e -> iph_wire_checksum bs = Some (i4_header_checksum hd)).
+Proof. exact iph_written_exact. Qed.
+Print Assumptions C08_IpHeaders_written_exact.
+
+(* clause D at full strength: decode(write(decode bs) ++ payload ++ t) = decode bs, value AND payload
+   description, holds exactly when the wire checksum is right (else the checksum field differs and nothing
+   else: C08_IpHeaders_enc_dec) *)
+Theorem C08_IpHeaders_idempotent : forall en bs h p, bytes_ok bs -> iph_from_slice bs = Ok (h, p) ->
+  exists w cons t, iph_write en h = (w, ExtChain.Model.Ok tt) /\ len w = iph_header_len h
+    /\ bs = cons ++ ipp_payload p ++ t /\ len cons = iph_header_len h
+    /\ iph_reencodes en h cons w
+    /\ (iph_from_slice (w ++ ipp_payload p ++ t) = Ok (h, p) <-> iph_checksum_ok en h = true).
+Proof. exact iph_idempotent. Qed.
+Print Assumptions C08_IpHeaders_idempotent.
+
+(* non-vacuity: the same header with the right checksum (102;210) and with a wrong one (1;2) *)
+Example C08_IpHeaders_idempotent_ex :
+  match iph_from_slice ([69;0;0;24; 0;1;0;0; 64;17;102;210; 10;0;0;1; 10;0;0;2] ++ [9;9;9;9]) with
+  | Ok (h, p) => iph_checksum_ok LE h = true /\ iph_written LE h = h
+                 /\ iph_from_slice (fst (iph_write LE h) ++ ipp_payload p) = Ok (h, p)
+  | _ => False
+  end /\
+  match iph_from_slice ([69;0;0;24; 0;1;0;0; 64;17;1;2; 10;0;0;1; 10;0;0;2] ++ [9;9;9;9]) with
+  | Ok (h, p) => iph_checksum_ok LE h = false /\ iph_written LE h <> h
+                 /\ iph_wire_checksum ([69;0;0;24; 0;1;0;0; 64;17;1;2; 10;0;0;1; 10;0;0;2] ++ [9;9;9;9]) = Some 258
+  | _ => False
+  end.
+Proof.
+  split.
+  - vm_compute. repeat split; reflexivity.
+  - vm_compute. split; [reflexivity|]. split; [intros E; discriminate E|reflexivity].
+Qed.
+
+(* ---- (b) carried over to IpHeaders: positional masks ------------------------------------------------ *)
+(* iph_reencodes_pos = iph_reencodes with the IPv6 extension area compared under the positional mask
+   Exts6Mask.x6_keep_mask (no hdr_eq); and with a right wire checksum ONE mask for the whole header area:
+   iph_keep_mask h = ip4_keep_mask ++ x4_keep_mask resp. ones 40 ++ x6_keep_mask *)
+Theorem C08_IpHeaders_enc_dec_mask : forall en bs h p, bytes_ok bs -> iph_from_slice bs = Ok (h, p) ->
+  exists w cons t, iph_write en h = (w, ExtChain.Model.Ok tt) /\ len w = iph_header_len h
+    /\ bs = cons ++ ipp_payload p ++ t /\ len cons = iph_header_len h
+    /\ iph_reencodes_pos en h cons w
+    /\ len (iph_keep_mask h) = iph_header_len h
+    /\ (iph_checksum_ok en h = true -> agree (iph_keep_mask h) w cons).
+Proof. exact iph_enc_dec_mask. Qed.
+Print Assumptions C08_IpHeaders_enc_dec_mask.
+
+Example C08_IpHeaders_enc_dec_mask_ex :
+  match iph_from_slice ([96;0;0;0; 0;10; 44; 64] ++ repeat 1 16 ++ repeat 2 16 ++ [17;170;0;15;0;0;0;1] ++ [9;9]) with
+  | Ok (h, p) => iph_keep_mask h = repeat 255 40 ++ [255; 0; 255; 249; 255; 255; 255; 255]
+                 /\ iph_checksum_ok LE h = true
+  | _ => False
+  end.
+Proof. vm_compute. split; reflexivity. Qed.
+
+(* ... and ONE positional mask for EVERY accepted byte string, the checksum hypothesis moved into the mask:
+   iph_keep_mask_ck ok h = iph_keep_mask h when the wire checksum is right, else the same mask with bytes
+   10-11 (the IPv4 header checksum that write recomputes) cleared as well *)
+Theorem C08_IpHeaders_enc_dec_mask_any : forall en bs h p, bytes_ok bs -> iph_from_slice bs = Ok (h, p) ->
+  exists w cons t, iph_write en h = (w, ExtChain.Model.Ok tt) /\ bs = cons ++ ipp_payload p ++ t
+    /\ agree (iph_keep_mask_ck (iph_checksum_ok en h) h) w cons.
+Proof. exact iph_enc_dec_mask_any. Qed.
+Print Assumptions C08_IpHeaders_enc_dec_mask_any.
+
+Example C08_IpHeaders_enc_dec_mask_any_ex :
+  match iph_from_slice ([69;0;0;24; 0;1;128;0; 64;17;1;2; 10;0;0;1; 10;0;0;2] ++ [9;9;9;9]) with
+  | Ok (h, p) => iph_checksum_ok LE h = false
+                 /\ iph_keep_mask_ck false h = [255;255;255;255; 255;255;127;255; 255;255;0;0] ++ repeat 255 8
+                 /\ iph_keep_mask_ck true h = [255;255;255;255; 255;255;127;255] ++ repeat 255 12
+  | _ => False
+  end.
+Proof. vm_compute. repeat split; reflexivity. Qed.
+
+(* ---- (c) ArpEthIpv4Packet: explicit idempotence and the rejection classes of try_eth_ipv4 ---------- *)
+(* every accepted byte string whose ArpPacket converts: the view's 28 bytes are the first 28 input bytes and
+   decoding them again (from_slice and read, ANY bytes behind) returns THE SAME ArpPacket, hence the same view;
+   to_arp_packet of the view is that packet *)
+Theorem C08_ArpEthIpv4_idempotent : forall bs p v, bytes_ok bs -> arp_from_slice bs = Ok p ->
+  arp_try_eth_ipv4 p = Ok v ->
+  wf_ae v = true /\ len (ae_to_bytes v) = 28 /\ bs = ae_to_bytes v ++ drop 28 bs
+  /\ ae_to_arp_packet v = Some p
+  /\ forall rest, arp_from_slice (ae_to_bytes v ++ rest) = Ok p
+                  /\ arp_read (ae_to_bytes v ++ rest) = Ok (p, rest)
+                  /\ drop 28 (ae_to_bytes v ++ rest) = rest.
+Proof. exact Roundtrip.ArpIdem.ae_idempotent. Qed.
+Print Assumptions C08_ArpEthIpv4_idempotent.
+
+(* try_eth_ipv4 on every well-formed (so every decoded) ArpPacket: Ok exactly for hardware type 1, protocol
+   type 0x0800, sizes 6 / 4; otherwise the error names the first differing field in that order
+   (EContent 0..3 = NonMatchingHwType, ProtocolType, HwAddrSize, ProtoAddrSize); never an undefined read *)
+Theorem C08_ArpEthIpv4_try_classes : forall p, wf_arp p = true ->
+  match arp_try_eth_ipv4 p with
+  | Ok v => arp_hw_addr_type p = 1 /\ arp_proto_addr_type p = 2048 /\ arp_hw_addr_size p = 6
+            /\ arp_proto_addr_size p = 4 /\ wf_ae v = true /\ ae_operation v = arp_operation p
+  | Err (EContent 0) => arp_hw_addr_type p <> 1
+  | Err (EContent 1) => arp_hw_addr_type p = 1 /\ arp_proto_addr_type p <> 2048
+  | Err (EContent 2) => arp_hw_addr_type p = 1 /\ arp_proto_addr_type p = 2048 /\ arp_hw_addr_size p <> 6
+  | Err (EContent 3) => arp_hw_addr_type p = 1 /\ arp_proto_addr_type p = 2048 /\ arp_hw_addr_size p = 6
+                        /\ arp_proto_addr_size p <> 4
+  | Err _ => False
+  end.
+Proof. exact Roundtrip.ArpIdem.ae_try_classes. Qed.
+Print Assumptions C08_ArpEthIpv4_try_classes.
+
+Example C08_ArpEthIpv4_idempotent_ex :
+  let bs := [0;1; 8;0; 6; 4; 0;2; 1;2;3;4;5;6; 10;0;0;1; 7;8;9;10;11;12; 10;0;0;2] ++ [99; 98] in
+  match arp_from_slice bs with
+  | Ok p => match arp_try_eth_ipv4 p with
+            | Ok v => ae_to_bytes v = take 28 bs /\ arp_from_slice (ae_to_bytes v ++ [5]) = Ok p
+            | _ => False
+            end
+  | _ => False
+  end /\
+  match arp_from_slice [0;6; 8;0; 6; 4; 0;2; 1;2;3;4;5;6; 10;0;0;1; 7;8;9;10;11;12; 10;0;0;2] with
+  | Ok p => wf_arp p = true /\ arp_try_eth_ipv4 p = Err (EContent 0)
+  | _ => False
+  end.
+Proof. vm_compute. repeat split; reflexivity. Qed.
+End ROUND3.
+
+(* ---- (b) Ipv6Extensions (imports shadow Ok / Err: own module) -------------------------------------- *)
+Module ROUND3_X6.
+Import ExtChain.Spec ExtChain.Model Roundtrip.Exts6Mask.
+
+(* A: Ipv6Extensions has ONE serialiser, write (-> write_internal; no to_bytes, no write_to_slice; IpHeaders::write
+   and the packet builder call the same function).  x6_chain e first = the headers in the order of the
+   next_header links (the loop of write_internal with each write replaced by the header written).  For every
+   valid struct and first ip number: the bytes in the Vec -- also when write ends in an error -- are the
+   to_bytes() of the chain's headers in that order, each header_len() long; when write succeeds they are
+   header_len(e) bytes, the chain is a permutation of the headers the struct holds (each present header is
+   written exactly once), and the positional mask has the same length. *)
+Theorem C08_Exts6_ser_agree : forall e first, exts6_valid e = true ->
+  fst (write e first) = parts_bytes (x6_chain e first)
+  /\ Forall (fun p => part_to_bytes p = Some (part_bytes p) /\ len (part_bytes p) = part_len p)
+            (x6_chain e first)
+  /\ (snd (write e first) = Ok tt ->
+      len (fst (write e first)) = header_len e /\ Permutation.Permutation (x6_chain e first) (x6_present e)
+      /\ len (x6_keep_mask e first) = header_len e).
+Proof. exact exts6_ser_agree. Qed.
+Print Assumptions C08_Exts6_ser_agree.
+
+(* C with a POSITIONAL mask (replaces hdr_eq of C08_Exts6_enc_dec): x6_keep_mask e first = concatenation, in
+   chain order, of the parts' own masks -- all ones for a raw header (hop-by-hop, destination options,
+   routing), Frag.frag_keep_mask = [255;0;255;249;255;255;255;255] for the fragment header, Auth.ah_keep_mask
+   = [255;255;0;0] ++ ones for the authentication header (C08_Exts6_part_masks): every masked bit sits at a
+   fixed offset in a header that starts at the sum of the lengths of the parts before it.  Every accepted
+   byte string (also chains on which the decoder stops in front of a repeated header). *)
+Theorem C08_Exts6_enc_dec_mask : forall first bs e n r, bytes_ok bs -> from_slice first bs = Ok (e, n, r) ->
+  exts6_valid e = true /\
+  exists bs' cons, write e first = (bs', Ok tt) /\ next_header e first = Ok n
+    /\ bs = cons ++ r /\ Roundtrip.Common.agree (x6_keep_mask e first) bs' cons
+    /\ bs' = parts_bytes (x6_chain e first) /\ len bs' = header_len e
+    /\ forall t, from_slice first (bs' ++ t) = Ok (e, n, t).
+Proof. exact exts6_enc_dec_mask. Qed.
+Print Assumptions C08_Exts6_enc_dec_mask.
+
+Theorem C08_Exts6_part_masks : forall e first,
+  x6_keep_mask e first = flat_map part_mask (x6_chain e first) /\
+  (forall h, part_mask (PRaw h) = Roundtrip.Common.ones (raw_header_len h)) /\
+  (forall h, part_mask (PFrag h) = [255; 0; 255; 249; 255; 255; 255; 255]) /\
+  (forall h, part_mask (PAuth h) = [255; 255; 0; 0] ++ Roundtrip.Common.ones (auth_header_len h - 4)).
+Proof. exact (fun e first => conj eq_refl (conj part_mask_raw (conj part_mask_frag part_mask_auth))). Qed.
+Print Assumptions C08_Exts6_part_masks.
+
+(* non-vacuity: hop-by-hop -> fragment (reserved byte 170, reserved bits of byte 3 set) -> AH (reserved 9;9);
+   and the same three headers linked AH -> fragment: the mask follows the chain, not the struct *)
+Example C08_Exts6_mask_ex :
+  let bs := [44;0;1;2;3;4;5;6] ++ [51;170;0;15;0;0;0;1] ++ [17;2;9;9; 0;0;0;1; 0;0;0;2; 1;2;3;4] ++ [7] in
+  match from_slice 0 bs with
+  | Ok (e, n, r) =>
+    n = 17 /\ r = [7]
+    /\ x6_chain e 0 = [PRaw (mkRaw 44 0 [1;2;3;4;5;6]); PFrag (mkFrag 51 1 true 1); PAuth (mkAuth 17 1 2 1 [1;2;3;4])]
+    /\ x6_keep_mask e 0 = repeat 255 8 ++ [255;0;255;249;255;255;255;255] ++ [255;255;0;0] ++ repeat 255 12
+    /\ fst (write e 0) = [44;0;1;2;3;4;5;6] ++ [51;0;0;9;0;0;0;1] ++ [17;2;0;0; 0;0;0;1; 0;0;0;2; 1;2;3;4]
+  | _ => False
+  end /\
+  let bs2 := [51;0;1;2;3;4;5;6] ++ [44;2;9;9; 0;0;0;1; 0;0;0;2; 1;2;3;4] ++ [17;170;0;15;0;0;0;1] in
+  match from_slice 0 bs2 with
+  | Ok (e, n, r) =>
+    n = 17 /\ r = []
+    /\ x6_keep_mask e 0 = repeat 255 8 ++ [255;255;0;0] ++ repeat 255 12 ++ [255;0;255;249;255;255;255;255]
+  | _ => False
+  end.
+Proof. vm_compute. repeat split; reflexivity. Qed.
+End ROUND3_X6.
+(* ==== round3 c08id end ==== *)
